@@ -234,9 +234,138 @@ static const uint8_t fills[] = {0x80, 0xbf, 0xff, 0x00, 0x0a, '%', 0xc3, 0xe2, 0
 static const size_t fill_lens[] = {1, 2, 23, 24, 255, 256, 257, 511, 512, 513, 1023, 1024, 1025, 1026, 2048, 4097, 8192, 65536};
 #define NFILL ((uint64_t)(sizeof fills) * (sizeof fill_lens / sizeof fill_lens[0]) * 2 * 2)
 #define FAM3 ((uint64_t)(NLEN * 2 * 2 + NCNT * 4 * 2) + NFILL)
+
+/* fifth family: a dictionary of well-known encodings — every example of RFC 8949 Appendix A that lies within the profile,
+ * the RFC 9277 labels (self-described CBOR, the CBOR sequence label, tag 55801), registered tag idioms (bignums, decimal
+ * fractions, encoded CBOR, URIs, UUIDs, sets, COSE shapes). Constants a format-aware implementation might special-case. */
+static const char* const dict_hex[] = {
+  "00",
+  "01",
+  "0a",
+  "17",
+  "1818",
+  "1819",
+  "1864",
+  "1903e8",
+  "1a000f4240",
+  "1b000000e8d4a51000",
+  "1bffffffffffffffff",
+  "c249010000000000000000",
+  "3bffffffffffffffff",
+  "c349010000000000000000",
+  "20",
+  "29",
+  "3863",
+  "3903e7",
+  "f90000",
+  "f98000",
+  "f93c00",
+  "fb3ff199999999999a",
+  "f93e00",
+  "f97bff",
+  "fa47c35000",
+  "fa7f7fffff",
+  "fb7e37e43c8800759c",
+  "f90001",
+  "f90400",
+  "f9c400",
+  "fbc010666666666666",
+  "f97c00",
+  "f97e00",
+  "f9fc00",
+  "fa7f800000",
+  "fa7fc00000",
+  "faff800000",
+  "fb7ff0000000000000",
+  "fb7ff8000000000000",
+  "fbfff0000000000000",
+  "f4",
+  "f5",
+  "f6",
+  "f7",
+  "c074323031332d30332d32315432303a30343a30305a",
+  "c11a514b67b0",
+  "c1fb41d452d9ec200000",
+  "d74401020304",
+  "d818456449455446",
+  "d82076687474703a2f2f7777772e6578616d706c652e636f6d",
+  "40",
+  "4401020304",
+  "60",
+  "6161",
+  "6449455446",
+  "62225c",
+  "62c3bc",
+  "63e6b0b4",
+  "64f0908591",
+  "80",
+  "83010203",
+  "8301820203820405",
+  "98190102030405060708090a0b0c0d0e0f101112131415161718181819",
+  "a0",
+  "a201020304",
+  "a26161016162820203",
+  "826161a161626163",
+  "a56161614161626142616361436164614461656145",
+  "5f42010243030405ff",
+  "7f657374726561646d696e67ff",
+  "9fff",
+  "9f018202039f0405ffff",
+  "9f01820203820405ff",
+  "83018202039f0405ff",
+  "83019f0203ff820405",
+  "9f0102030405060708090a0b0c0d0e0f101112131415161718181819ff",
+  "bf61610161629f0203ffff",
+  "826161bf61626163ff",
+  "bf6346756ef563416d7421ff",
+  "d9d9f700",
+  "d9d9f7a0",
+  "d9d9f7d9d9f700",
+  "d9d9f783010203",
+  "d9d9f843424f52",
+  "d9d9f943424f52",
+  "d9d9f84443424f52",
+  "d9d9f8420f52",
+  "da43424f5200",
+  "da63740101d9d9f700",
+  "d9d9f7d9d9f843424f52",
+  "c24100",
+  "c240",
+  "c34100",
+  "c48221196ab3",
+  "c5822003",
+  "d5a0",
+  "d64100",
+  "d81c00",
+  "d81d00",
+  "d8255000112233445566778899aabbccddeeff",
+  "d9010280",
+  "d9010283010203",
+  "d8184101",
+  "d82a00",
+  "d8404401020304",
+  "d9011080",
+  "d28443a10126a1044231314040",
+  "d18443a10101a1054c02d1f7e6f26c43d4868d87ce4040",
+  "d83d00",
+  "d8636161",
+  "d903e800"};
+#define NDICT (sizeof dict_hex / sizeof dict_hex[0])
+static rnode* family_dict(uint64_t i) {
+  int ctx = (int)(i & 1);
+  const char* h = dict_hex[(i >> 1) % NDICT];
+  size_t n = strlen(h) / 2;
+  uint8_t* b = malloc(n ? n : 1);
+  for (size_t k = 0; k < n; k++) { unsigned v; sscanf(h + 2 * k, "%2x", &v); b[k] = (uint8_t)v; }
+  struct rverdict z = ref_decode(b, n, (size_t)1 << 20, RM_LAZY, true, NULL);
+  free(b);
+  if (z.code != RC_ACCEPT || z.read != n || !z.tree) { if (z.tree) rn_free(z.tree); vh_die("dictionary entry %s is not one well-formed item within the profile", h); }
+  return ctx ? wrap_ctx(3, z.tree) : z.tree;
+}
+uint64_t gen_dict_count(void) { return NDICT * 2; } /* the dictionary occupies the last indices of the systematic family */
 uint64_t gen_systematic_count(void) {
   leaves_init();
-  return g_nleaves * NCTX + (uint64_t)NCTX * NCTX * 16 + FAM3;
+  return g_nleaves * NCTX + (uint64_t)NCTX * NCTX * 16 + FAM3 + NDICT * 2;
 }
 static rnode* family3(uint64_t i) {
   if (i >= FAM3 - NFILL) {
@@ -273,7 +402,7 @@ rnode* gen_systematic(uint64_t idx) {
   leaves_init();
   if (idx < g_nleaves * NCTX) return wrap_ctx((int)(idx % NCTX), rn_clone(g_leaves[idx / NCTX]));
   idx -= g_nleaves * NCTX;
-  if (idx >= (uint64_t)NCTX * NCTX * 16) { idx -= (uint64_t)NCTX * NCTX * 16; return idx < FAM3 ? family3(idx) : NULL; }
+  if (idx >= (uint64_t)NCTX * NCTX * 16) { idx -= (uint64_t)NCTX * NCTX * 16; return idx < FAM3 ? family3(idx) : idx < FAM3 + NDICT * 2 ? family_dict(idx - FAM3) : NULL; }
   int c1 = (int)(idx % NCTX), c2 = (int)(idx / NCTX % NCTX);
   uint64_t li = idx / NCTX / NCTX; /* 0..15: pick a spread of leaves */
   rnode* leaf = rn_clone(g_leaves[(li * 2654435761u) % g_nleaves]);
